@@ -47,6 +47,11 @@ enum Field {
     SkipBack(bool),
     /// flagA (skip b), b = a flag byte that would skip c, c: U16BE (3 nodes): when b is skipped its own option must not apply
     SkipChain(bool, bool),
+    /// size byte (=1) sizing b, b = a flag byte (read from its own 1-byte window) that skips c: U16BE iff 0 (3 nodes):
+    /// the options of a size-dependent field must be honoured like those of any other field
+    SizedSkip(bool),
+    /// size byte (=1) sizing b, b = a length byte sizing the byte block c (3 nodes): nested length prefixes
+    NestedSize(usize),
     /// trailing optional U16LE, present or absent (last only)
     OptU16(bool),
     /// trailing byte block reading to the end (last only)
@@ -59,7 +64,7 @@ impl Field {
     fn nodes(&self) -> usize {
         match self {
             Field::SkipTwo(..) => 4,
-            Field::TrameU16U8 | Field::Nested | Field::SkipGap(_) | Field::SkipChain(..) => 3,
+            Field::TrameU16U8 | Field::Nested | Field::SkipGap(_) | Field::SkipChain(..) | Field::SizedSkip(_) | Field::NestedSize(_) => 3,
             Field::SizedBytes(_) | Field::SizedArray(_) | Field::SkipPair(_) | Field::SkipBack(_) => 2,
             _ => 1,
         }
@@ -102,6 +107,10 @@ fn field_menu() -> Vec<Field> {
         Field::SkipChain(true, false),
         Field::SkipChain(false, true),
         Field::SkipChain(false, false),
+        Field::SizedSkip(true),
+        Field::SizedSkip(false),
+        Field::NestedSize(0),
+        Field::NestedSize(3),
         Field::OptU16(true),
         Field::OptU16(false),
         Field::Rest(0),
@@ -389,6 +398,43 @@ fn build(shape: &[Field], variant: usize) -> Built {
                     leaves.push(Leaf::H(vc));
                 }
             }
+            Field::SizedSkip(present) => {
+                let flag: u8 = if *present { 1 } else { 0 };
+                let vc = nx16();
+                let nb = format!("f{}b", i);
+                let nc = format!("f{}c", i);
+                let size = |t: String| move |x: &u8| MessageOption::Size(t.clone(), *x as usize);
+                let filt = |t: String| move |x: &u8| if *x == 0 { MessageOption::SkipField(t.clone()) } else { MessageOption::None };
+                msg.insert(name.clone(), Box::new(DynOption::new(1u8, size(nb.clone()))));
+                msg.insert(nb.clone(), Box::new(DynOption::new(flag, filt(nc.clone()))));
+                msg.insert(nc.clone(), Box::new(U16::BE(vc)));
+                empty.insert(name, Box::new(DynOption::new(0u8, size(nb.clone()))));
+                empty.insert(nb, Box::new(DynOption::new(1u8, filt(nc.clone()))));
+                empty.insert(nc, Box::new(U16::BE(0)));
+                w.u8(1).u8(flag);
+                leaves.push(Leaf::B(1));
+                leaves.push(Leaf::B(flag));
+                if *present {
+                    w.u16be(vc);
+                    leaves.push(Leaf::H(vc));
+                }
+            }
+            Field::NestedSize(n) => {
+                let v: Vec<u8> = (0..*n).map(|_| nx8()).collect();
+                let nb = format!("f{}b", i);
+                let nc = format!("f{}c", i);
+                let size = |t: String| move |x: &u8| MessageOption::Size(t.clone(), *x as usize);
+                msg.insert(name.clone(), Box::new(DynOption::new(1u8, size(nb.clone()))));
+                msg.insert(nb.clone(), Box::new(DynOption::new(*n as u8, size(nc.clone()))));
+                msg.insert(nc.clone(), Box::new(v.clone()));
+                empty.insert(name, Box::new(DynOption::new(0u8, size(nb.clone()))));
+                empty.insert(nb, Box::new(DynOption::new(0u8, size(nc.clone()))));
+                empty.insert(nc, Box::new(Vec::<u8>::new()));
+                w.u8(1).u8(*n as u8).bytes(&v);
+                leaves.push(Leaf::B(1));
+                leaves.push(Leaf::B(*n as u8));
+                leaves.push(Leaf::S(v));
+            }
             Field::OptU16(present) => {
                 let v = nx16();
                 if *present {
@@ -485,7 +531,9 @@ struct GccResp {
     core_opt: u8,
     channels: usize,
     order: usize,
-    unknown_block: bool,
+    /// 0 none, 1 unknown block with an 8-byte body before the second block, 2 with an empty body (length field 4)
+    /// there, 3 with an empty body after the last block
+    unknown_block: u8,
     node_id: u16,
     tag_width: u16,
 }
@@ -638,7 +686,7 @@ impl Prop for C18 {
             for core_opt in 0..3u8 {
                 for channels in 0..=31usize {
                     for order in 0..6usize {
-                        for unknown_block in [false, true] {
+                        for unknown_block in 0..4u8 {
                             for (node_id, tag_width) in [(1001u16, 1u16), (31219, 1), (65535, 2), (1002, 4)] {
                                 if tier == Tier::Quick && !(channels <= 4 || channels == 31 || channels == 15) {
                                     continue;
@@ -660,7 +708,7 @@ impl Prop for C18 {
         json!({"idx": idx, "case": self.cases[idx as usize]})
     }
     fn rule(&self) -> String {
-        "cases: [model] every message shape of <=4 nodes (<=5 thorough) over {u8, U16/U32 LE/BE, fixed byte block, Check, Trame, nested Component, size-dependent byte block and array (DynOption Size), skippable field (DynOption SkipField: adjacent target, distant target, two skips pending at once, a skip naming an earlier field, a skipped field that itself carries a skip), trailing Option present/absent, trailing rest-of-input block, trailing array} x 2 (5) value variants from {0,1,7F,80,FF,...}: length()==bytes written==reference bytes, read into an empty same-shape message reproduces every leaf and consumes exactly; [per] every length 0..0x7FFF, integers (all of u16, u32 boundaries; all 2^32 in thorough), integer16 (value,minimum) boundary pairs and whole rows, every nibble-valid 6-arc OID over {0,1,15,16,127,128,255}, octet strings at every length boundary, numeric strings; [asn1] INTEGER/ENUMERATED/OCTET STRING boundaries and the tagged shapes of MCS/CredSSP against an independent DER codec; [gcc] conference create request for block sizes across the PER length boundaries, every response of the reference encoder over versions x optional SC_CORE fields x 0..31 channels x 6 block orders x unknown block x node ids. Non-trivial: every case except single-leaf model shapes.".into()
+        "cases: [model] every message shape of <=4 nodes (<=5 thorough) over {u8, U16/U32 LE/BE, fixed byte block, Check, Trame, nested Component, size-dependent byte block and array (DynOption Size), skippable field (DynOption SkipField: adjacent target, distant target, two skips pending at once, a skip naming an earlier field, a skipped field that itself carries a skip), a size-dependent field that itself carries a skip or a size for the next field, trailing Option present/absent, trailing rest-of-input block, trailing array} x 2 (5) value variants from {0,1,7F,80,FF,...}: length()==bytes written==reference bytes, read into an empty same-shape message reproduces every leaf and consumes exactly; [per] every length 0..0x7FFF, integers (all of u16, u32 boundaries; all 2^32 in thorough), integer16 (value,minimum) boundary pairs and whole rows, every nibble-valid 6-arc OID over {0,1,15,16,127,128,255}, octet strings at every length boundary, numeric strings; [asn1] INTEGER/ENUMERATED/OCTET STRING boundaries and the tagged shapes of MCS/CredSSP against an independent DER codec; [gcc] conference create request for block sizes across the PER length boundaries, every response of the reference encoder over versions x optional SC_CORE fields x 0..31 channels x 6 block orders x unknown block (none / 8-byte body / empty body between the blocks / empty body at the end) x node ids. Non-trivial: every case except single-leaf model shapes.".into()
     }
     fn assumptions(&self) -> Vec<String> {
         vec![
@@ -926,10 +974,13 @@ impl Prop for C18 {
                 let three = [core, sec, net];
                 let mut blocks = vec![];
                 for (pos, i) in perms[g.order].iter().enumerate() {
-                    if g.unknown_block && pos == 1 {
-                        blocks.extend(rgcc::sc_block_bytes(&rgcc::ScBlock::Unknown { ty: 0x0C04, body: vec![1, 2, 3, 4, 5, 6, 7, 8] }));
+                    if (g.unknown_block == 1 || g.unknown_block == 2) && pos == 1 {
+                        blocks.extend(rgcc::sc_block_bytes(&rgcc::ScBlock::Unknown { ty: 0x0C04, body: if g.unknown_block == 1 { vec![1, 2, 3, 4, 5, 6, 7, 8] } else { vec![] } }));
                     }
                     blocks.extend(rgcc::sc_block_bytes(&three[*i]));
+                }
+                if g.unknown_block == 3 {
+                    blocks.extend(rgcc::sc_block_bytes(&rgcc::ScBlock::Unknown { ty: 0x0C0A, body: vec![] }));
                 }
                 let tag = match g.tag_width {
                     1 => 1,
